@@ -83,6 +83,7 @@ package parsigdb
 
 //@ func clone
 //@ props C07 C18
+//@ fresh r0
 //@ ensures forallk(pk, result, has(output, pk))
 //@ ensures forallk(pk, output, has(result, pk) && sameShape(result[pk], output[pk]))
 //@ loop 1 invariant forallk(pk, clone, exists(t, 0, $i, $ks[t] == pk))
@@ -107,7 +108,10 @@ package parsigdb
 //@ loop 1 invariant distinctShares(sigs) ==> distinctShares(resp)
 
 //@ func (db *MemDB) StoreExternal
-//@ props C07 C01
+//@ props C07 C01 C18
+// every threshold subscriber call gets its own clone of the output
+//@ callreq sub: ncalls(clone) == ncalls(sub) + 1
+//@ loop 3 invariant ncalls(clone) == ncalls(sub)
 //@ requires db.threshold >= 1
 //@ callreq sub: forallk(pk, a3, has(signedSet, pk) && len(a3[pk]) == db.threshold && distinctShares(a3[pk]))
 //@ callreq sub: duty.Type != core.DutySignature ==> forallk(pk, a3, sameRoot(a3[pk]))
@@ -148,4 +152,3 @@ package parsigdb
 //@ callreq delete: ncalls(db.mu.Lock) == ncalls(db.mu.Unlock) + 1
 //@ loop 1 invariant ncalls(db.mu.Lock) == ncalls(db.mu.Unlock)
 //@ loop 2 invariant ncalls(db.mu.Lock) == ncalls(db.mu.Unlock) + 1
-
